@@ -165,6 +165,65 @@ pub fn ref_parse(pattern: &str, case: CaseMatching, norm: Normalization) -> Vec<
         .collect()
 }
 
+/// reference for `Atom::new` / `Pattern::new`: no marker parsing, optional unescaping of `\ `
+pub fn ref_new_atom(raw: &str, case: CaseMatching, norm: Normalization, kind: AtomKind, escape_ws: bool) -> RAtom {
+    // reuse the parser on a text whose markers are neutralised: build the result directly instead
+    let cs: Vec<char> = raw.chars().collect();
+    let mut text = String::new();
+    let mut i = 0;
+    while i < cs.len() {
+        if escape_ws && cs[i] == '\\' && i + 1 < cs.len() && cs[i + 1] == ' ' {
+            text.push(' ');
+            i += 2;
+        } else {
+            text.push(cs[i]);
+            i += 1;
+        }
+    }
+    let original = grapheme_firsts(&text);
+    let mut needle = original.clone();
+    if matches!(case, CaseMatching::Ignore) {
+        for c in needle.iter_mut() {
+            *c = chars::to_lower_case(*c);
+        }
+    }
+    let ignore_case = match case {
+        CaseMatching::Ignore => vec![true],
+        CaseMatching::Respect => vec![false],
+        CaseMatching::Smart => {
+            let readings: Vec<Option<bool>> = original.iter().map(|&c| uppercase_reading(c)).collect();
+            if readings.iter().any(|r| *r == Some(true)) {
+                vec![false]
+            } else if readings.iter().any(|r| r.is_none()) {
+                vec![true, false]
+            } else {
+                vec![true]
+            }
+        }
+        _ => vec![true, false],
+    };
+    let normalize = match norm {
+        Normalization::Never => vec![false],
+        Normalization::Smart => {
+            let a = original.iter().all(|&c| chars::normalize(c) == c);
+            let b = needle.iter().all(|&c| chars::normalize(c) == c);
+            if a == b {
+                vec![a]
+            } else {
+                vec![a, b]
+            }
+        }
+        _ => vec![true, false],
+    };
+    RAtom {
+        negative: false,
+        kind,
+        needle,
+        ignore_case,
+        normalize,
+    }
+}
+
 pub fn atom_flags(atom: &Atom) -> (bool, bool) {
     let dbg = format!("{atom:?}");
     (
@@ -325,6 +384,47 @@ pub fn run(opts: &Opts, rep: &mut Report) {
                         jobj! {"pattern" => show_chars(&p.chars().collect::<Vec<_>>()), "settings" => settings.clone(),
                                "difference" => diff, "real" => format!("{:?}", real.atoms), "case_id" => case_id.clone()},
                     );
+                }
+                // the constructors that do not parse markers
+                if idx % 8 < 2 {
+                    let kind = *rng.pick(&[AtomKind::Fuzzy, AtomKind::Substring, AtomKind::Prefix, AtomKind::Postfix, AtomKind::Exact]);
+                    let real_new = Pattern::new(&p, case, norm, kind);
+                    let reference_new: Vec<RAtom> = ref_split(&p)
+                        .iter()
+                        .map(|a| ref_new_atom(a, case, norm, kind, true))
+                        .filter(|a| !a.needle.is_empty())
+                        .collect();
+                    rep.count("c14.pattern-new-checked");
+                    if let Some(diff) = compare(&real_new.atoms, &reference_new) {
+                        rep.violation(
+                            "C14",
+                            "pattern-new-differs-from-grammar",
+                            class_of(&p),
+                            jobj! {"pattern" => show_chars(&p.chars().collect::<Vec<_>>()), "settings" => settings.clone(), "kind" => format!("{kind:?}"),
+                                   "difference" => diff, "real" => format!("{:?}", real_new.atoms), "case_id" => case_id.clone()},
+                        );
+                    }
+                    // a single atom from the whole text, with and without unescaping
+                    for esc in [false, true] {
+                        if p.contains("\r\n") {
+                            // observation, outside the properties: an ASCII text with CR LF handed to Atom::new as ONE
+                            // atom keeps CR LF as two characters in an Ascii-held needle (parsing can never produce
+                            // such an atom because CR and LF split); not judged
+                            rep.count("c14.atom-new-with-crlf-not-judged");
+                            continue;
+                        }
+                        let a = Atom::new(&p, case, norm, kind, esc);
+                        let r = ref_new_atom(&p, case, norm, kind, esc);
+                        if let Some(diff) = compare(std::slice::from_ref(&a), std::slice::from_ref(&r)) {
+                            rep.violation(
+                                "C14",
+                                "atom-new-differs-from-grammar",
+                                format!("{} escape={esc}", class_of(&p)),
+                                jobj! {"text" => show_chars(&p.chars().collect::<Vec<_>>()), "settings" => settings.clone(), "escape_whitespace" => esc,
+                                       "difference" => diff, "real" => format!("{a:?}"), "case_id" => case_id.clone()},
+                            );
+                        }
+                    }
                 }
                 reused.reparse(&p, case, norm);
                 rep.count("c14.reparsed");
